@@ -37,7 +37,7 @@ func init() {
 	})
 	harness.Register(&harness.Property{
 		ID: "C15", Level: "exploration",
-		Rule:        "cases = long seeded random walks (well-formedness scan of every account changed by every leg + full scan at the end) and EVERY sequence of depth <= 3 (quick) / 4 (thorough) over 39 operation templates on a 2-shard, 3-account, 2-token universe (exhaustive over that bounded space); oracle: every protocol entry decodes (reference codec), balance > 0 or entry absent (zero only with the frozen bit), fungible entries without metadata, NFT entries with metadata nonce = key nonce, key layouts, no duplicate roles and counter >= highest issued nonce under system-contract discipline. Non-trivial = committed leg; distinct = reachable world digests",
+		Rule:        "cases = long seeded random walks (well-formedness scan of every account changed by every leg + full scan at the end) and EVERY sequence of depth <= 3 (quick) / 4 (thorough) over 42 operation templates on a 2-shard, 3-account, 2-token universe (exhaustive over that bounded space); oracle: every protocol entry decodes (reference codec), balance > 0 or entry absent (zero only with the frozen bit), fungible entries without metadata, NFT entries with metadata nonce = key nonce, key layouts, no duplicate roles and counter >= highest issued nonce under system-contract discipline. Non-trivial = committed leg; distinct = reachable world digests",
 		Assumptions: commonAssumptions,
 		Batches:     tierN(16, 32),
 		Floors:      map[string]int64{"C15/token-entry-checked": 20000, "C15/role-entry-checked": 5000, "C15/enum-sequences": 30000},
@@ -400,6 +400,21 @@ func enumOps() []enumOp {
 		{"T A->K call", func(s *Scn, _ map[string][]byte) {
 			x(s, gen.TransferCall(s.A, s.KSame, s.F1, big.NewInt(1), gen.BigGas, []byte("f")))
 		}},
+		{"T A->B bal+3 return-after-error", func(s *Scn, _ map[string][]byte) {
+			c := gen.TransferCall(s.A, s.Other, s.F1, new(big.Int).Add(bal(s, s.A, s.F1, 0), big.NewInt(3)), gen.BigGas)
+			c.RetAfterErr = true
+			x(s, c)
+		}},
+		{"localburn A bal+1 return-after-error", func(s *Scn, _ map[string][]byte) {
+			c := gen.SelfCall(FLocalBurn, s.A, gen.BigGas, s.F1, new(big.Int).Add(bal(s, s.A, s.F1, 0), big.NewInt(1)).Bytes())
+			c.RetAfterErr = true
+			x(s, c)
+		}},
+		{"nftburn S#1 bal+1 return-after-error", func(s *Scn, _ map[string][]byte) {
+			c := gen.SelfCall(FNFTBurn, s.A, gen.BigGas, s.SFT, gen.U64(1), new(big.Int).Add(bal(s, s.A, s.SFT, 1), big.NewInt(1)).Bytes())
+			c.RetAfterErr = true
+			x(s, c)
+		}},
 		{"T A->A all", func(s *Scn, _ map[string][]byte) {
 			x(s, gen.TransferCall(s.A, s.A, s.F1, bal(s, s.A, s.F1, 0), gen.BigGas))
 		}},
@@ -517,6 +532,7 @@ func runC15(c *harness.Ctx) {
 		}
 	}
 	aliasCases(c, []string{"C15"})
+	hugeNonceOps(c, []string{"C15"})
 	// W-enum: every sequence up to depth d
 	ops := enumOps()
 	depth := c.Scale(3, 4)
